@@ -1,6 +1,7 @@
 import Driver.Loop
 import PyGqlModel.Depth
 import PyGqlModel.DepthMerged
+import PyGqlModel.DepthFrontier
 import PyGqlModel.Spec.DepthSpec
 import PyGqlModel.Generated.DepthVariant
 open PyGql PyGql.Depth
@@ -111,6 +112,8 @@ def handle (j : J) : J :=
         if PyGql.Generated.DepthVariant.budgeted then
           (match (if PyGql.Generated.DepthVariant.levelMerged
                   then ruleM l f doc (varDefsROfJson (j.getD "doc")) (rawVarsOfJson (j.getD "raw"))
+                  else if PyGql.Generated.DepthVariant.levelFrontier
+                  then ruleF l f doc (varDefsROfJson (j.getD "doc")) (rawVarsOfJson (j.getD "raw"))
                   else ruleB l f doc (varDefsROfJson (j.getD "doc")) (rawVarsOfJson (j.getD "raw"))) with
            | .error e => errJ e
            | .ok errs => .arr (errs.map fun p => J.ofNat p.1))
